@@ -76,7 +76,7 @@ struct World {
     // handle expression: r<k> | o<id>  followed by /i<n> (getArrayItem) /v<n> (getArrayAsVector()[n]) /k<c> (getKey)
     // value expression additionally: I<z> newInteger, U newNull, Y<c> newName, B newArray, G newDictionary.
     // returns false when a guard fails ("skip": the operation is not performed, same rule in the model)
-    bool eval(int d, std::string const& e, QPDFObjectHandle& out) {
+    bool eval(int d, std::string const& e, QPDFObjectHandle& out, bool as_value = false) {
         auto parts = split(e, '/');
         std::string const& h = parts[0];
         if (h.empty()) return false;
@@ -114,6 +114,9 @@ struct World {
                 cur = cur.getKey("/" + s.substr(1));
             } else return false;
         }
+        // a value that is put into a container must be a scalar, an indirect object or a freshly made object
+        // (keeps the object graph of direct objects acyclic; same guard in the model)
+        if (as_value && (h[0] == 'r' || h[0] == 'o') && (cur.isArray() || cur.isDictionary()) && !cur.isIndirect()) return false;
         out = cur;
         return true;
     }
@@ -179,7 +182,7 @@ struct World {
             q->makeIndirectObject(h);
             return "ok";
         case 'K':     // K,d,hx,key,vx : replaceKey
-            if (!eval(d, f.at(2), h) || !h.isDictionary() || !eval(d, f.at(4), v)) return "skip";
+            if (!eval(d, f.at(2), h) || !h.isDictionary() || !eval(d, f.at(4), v, true)) return "skip";
             h.replaceKey("/" + f.at(3), v);
             return "ok";
         case 'R':     // R,d,hx,key : removeKey
@@ -187,11 +190,11 @@ struct World {
             h.removeKey("/" + f.at(3));
             return "ok";
         case 'A':     // A,d,hx,vx : appendItem
-            if (!eval(d, f.at(2), h) || !h.isArray() || !eval(d, f.at(3), v)) return "skip";
+            if (!eval(d, f.at(2), h) || !h.isArray() || !eval(d, f.at(3), v, true)) return "skip";
             h.appendItem(v);
             return "ok";
         case 'S': {   // S,d,hx,n,vx : setArrayItem
-            if (!eval(d, f.at(2), h) || !h.isArray() || !eval(d, f.at(4), v)) return "skip";
+            if (!eval(d, f.at(2), h) || !h.isArray() || !eval(d, f.at(4), v, true)) return "skip";
             int n = std::stoi(f.at(3));
             if (n < 0 || n >= h.getArrayNItems()) return "skip";
             h.setArrayItem(n, v);
